@@ -393,6 +393,19 @@ class Layout:
         self.inputs = j.get("inputs", {})
         self.returned = j.get("returned", {})
         self.init_rows = j.get("init_rows", 0)
+        # Engine X reads copy constraints off shared witness indices: that is only what the prover
+        # enforces if the permutation registers exactly these positions.  Checked on every layout.
+        self.perm_mismatch = None
+        if "perm" in j:
+            want = {}
+            for r, (_, w) in enumerate(self.gates):
+                for col, wi in enumerate(w):
+                    want.setdefault(wi, set()).add((col, r))
+            got = {int(w): {(int(c), int(r)) for c, r in ps} for w, ps in j["perm"]}
+            missing = sorted((w, p) for w, ps in want.items() for p in ps if p not in got.get(w, set()))
+            extra = sorted((w, p) for w, ps in got.items() for p in ps if p not in want.get(w, set()))
+            if missing or extra:
+                self.perm_mismatch = {"positions_not_copy_constrained": missing[:20], "unexpected_positions": extra[:20]}
 
     def shape(self):
         """hashable description (selectors + wiring + pi rows)"""
